@@ -28,6 +28,8 @@ def main():
         print("REPLAY", "property holds on this case" if ok else "VIOLATION reproduced")
         sys.exit(0 if ok else 1)
     chk.obligations(getattr(mod, "PROP_FILE", a.pid))
+    if tier == "thorough" and os.environ.get("VERIF_SKIP_COQCHK") != "1":
+        chk.coqchk(getattr(mod, "PROP_FILE", a.pid))
     try:
         mod.run(chk)
     except Exception:
